@@ -59,7 +59,10 @@ def _inline_pred(ctx: Ctx, fn: Func, call_src: str, symenv: Dict[str, Any]) -> A
 
 def selection_table(ctx: Ctx, rep: Report) -> Dict[Tuple[str, str, int], Tuple[str, Dict[str, int]]]:
     """(protocol, platform, major) -> (table name, folded table) derived from PortName.names()."""
-    fn = ctx.func("PortName.names")
+    from .normalise import normalised
+
+    # a per-platform helper shared by the tcp and udp halves is written back into the selection it denotes
+    fn = normalised(ctx, ctx.func("PortName.names"), "tailcalls,ifexp")
     cfg = ctx.cfg(fn)
     paths = [p for p in function_paths(cfg) if not p.raises]
     platforms = ctx.folder.const("helpers", "PLATFORMS")
@@ -134,9 +137,24 @@ def _table_name(ret: Optional[ast.AST]) -> Optional[str]:
     return None
 
 
+def _with_helpers(fn: Func) -> List[Func]:
+    """fn and the private methods of its class it calls on self, transitively (a body moved into a helper counts)."""
+    out: List[Func] = [fn]
+    i = 0
+    while i < len(out):
+        g = out[i]
+        i += 1
+        for n in own_nodes(g.node):
+            if isinstance(n, ast.Call) and isinstance(n.func, ast.Attribute) and src(n.func.value) == "self" and fn.cls is not None and n.func.attr.startswith("_"):
+                m = fn.cls.lookup_method(n.func.attr)
+                if m is not None and m not in out:
+                    out.append(m)
+    return out
+
+
 def _const_names_used(ctx: Ctx, fn: Func) -> List[str]:
     out = []
-    for n in own_nodes(fn.node):
+    for n in [x for g in _with_helpers(fn) for x in own_nodes(g.node)]:
         if isinstance(n, ast.Name) and isinstance(n.ctx, ast.Load):
             r = ctx.prog.resolve_name(fn.module, n.id)
             if isinstance(r, tuple) and r[0] == "const" and n.id not in out:
@@ -557,7 +575,7 @@ def run(ctx: Ctx, rep: Report, tier: str) -> None:  # noqa: C901
     # ---------------------------------------------------------------- R09.8 number ranges
     rep.rule("R09.8")
     iv = None
-    for n in own_nodes(setter.node):
+    for n in [x for g in _with_helpers(setter) for x in own_nodes(g.node)]:
         if isinstance(n, ast.If) and any(isinstance(s, ast.Raise) for s in n.body):
             try:
                 bad = cond_to_intset(n.test, lambda x: isinstance(x, ast.Name) and x.id == "number", lambda x: folder.fold(x, setter.module))
@@ -678,6 +696,8 @@ def _check_inverse_pairing(ctx: Ctx, rep: Report, swap_fn: Func) -> None:
                     if isinstance(st, ast.Assign) and isinstance(st.targets[0], ast.Subscript):
                         if src(st.targets[0].slice) == v and src(st.value) == k:
                             ok = True
+                    if isinstance(st, ast.Call) and isinstance(st.func, ast.Attribute) and st.func.attr == "setdefault" and len(st.args) == 2 and [src(a) for a in st.args] == [v, k]:
+                        ok = True  # data.setdefault(number, name)
         if isinstance(n, ast.DictComp) and len(n.generators) == 1:
             g = n.generators[0]
             if _iterates_items_of(g.iter, param) and isinstance(g.target, ast.Tuple) and len(g.target.elts) == 2:
